@@ -1,1 +1,275 @@
-import Simfile.Model.Mutate
+/-
+C06 — `mutate` under failures: a body that raises or cancels, a simfile that cannot be serialized/encoded,
+and a fault at any filesystem call of the save.
+Vocabulary (Simfile/Lemmas/Mutate.lean):
+  `Mut.NoClash c`  : `∀ b, given c.backup = some b → b ≠ c.input ∧ some b ≠ c.output`
+  `Mut.writeSide`  : `openW`, `write`, `close` (everything except `openR`); fault indices count these calls
+  `Mut.opPath`     : the path an op acts on
+No theorem here needs the file map to have pairwise distinct paths or to contain the input.
+-/
+import Simfile.Lemmas.Mutate
+namespace Simfile.C06
+open Simfile Simfile.Mut
+
+/-! ### 6. the body raises or cancels: nothing is written -/
+
+theorem body_raise_no_effect (c : MutateCfg) (tries : List (Str × Bool)) (enc : Str) (body : Body)
+    (problem : SaveProblem) (hnc : NoClash c) (hdet : detectEncoding tries = some enc)
+    (hbody : body = .raises ∨ body = .cancels) :
+    (mutate c tries body problem).2 = readOps c.input tries ∧
+    (∀ op ∈ (mutate c tries body problem).2, writeSide op = false) ∧
+    (∀ (fs : List (Str × Content)) (b : Option Str) (k : Option Nat),
+      runWrites fs b (mutate c tries body problem).2 k = fs) ∧
+    (body = .cancels → (mutate c tries body problem).1 = .returned) ∧
+    (body = .raises → (mutate c tries body problem).1 = .propagated) := by
+  have h : (mutate c tries body problem).2 = readOps c.input tries ∧
+      (body = .cancels → (mutate c tries body problem).1 = .returned) ∧
+      (body = .raises → (mutate c tries body problem).1 = .propagated) := by
+    rw [mutate_of_noClash hnc]
+    unfold mutate.go
+    rw [hdet]
+    rcases hbody with rfl | rfl <;> simp
+  refine ⟨h.1, ?_, ?_, h.2.1, h.2.2⟩
+  · rw [h.1]; exact readOps_not_writeSide _ _
+  · intro fs b k
+    rw [h.1]
+    exact runWrites_no_write b _ (readOps_not_writeSide _ _) fs k
+
+/-- the three bodies are the only ones -/
+theorem body_exhaustive (body : Body) : body = .returns ∨ body = .cancels ∨ body = .raises := by
+  cases body <;> simp
+
+/-! ### 7. serialization / encoding problems are detected before anything is opened for writing -/
+
+theorem save_problem_no_write (c : MutateCfg) (tries : List (Str × Bool)) (enc : Str)
+    (problem : SaveProblem) (hnc : NoClash c) (hdet : detectEncoding tries = some enc)
+    (hprob : problem ≠ .none) :
+    mutate c tries .returns problem = (.saveError, readOps c.input tries) ∧
+    (∀ op ∈ (mutate c tries .returns problem).2, writeSide op = false) ∧
+    (∀ (fs : List (Str × Content)) (b : Option Str) (k : Option Nat),
+      runWrites fs b (mutate c tries .returns problem).2 k = fs) := by
+  have h : mutate c tries .returns problem = (.saveError, readOps c.input tries) := by
+    rw [mutate_of_noClash hnc]
+    unfold mutate.go
+    rw [hdet]
+    cases problem with
+    | none => exact absurd rfl hprob
+    | _ => rfl
+  refine ⟨h, ?_, ?_⟩
+  · rw [h]; exact readOps_not_writeSide _ _
+  · intro fs b k
+    rw [h]
+    exact runWrites_no_write b _ (readOps_not_writeSide _ _) fs k
+
+/-! ### 8. a failing open-for-write leaves the input as it was -/
+
+/-- `ops` is the script of a fault-free save; the `k`-th write-side call is an `openW` (of the backup or of the
+output) and fails -/
+theorem open_failure_keeps_input (c : MutateCfg) (tries : List (Str × Bool)) (enc : Str) (k : Nat) (p e : Str)
+    (hnc : NoClash c)
+    (hk : ((readOps c.input tries ++ saveOps c enc).filter writeSide)[k]? = some (.openW p e))
+    (fs : List (Str × Content)) :
+    lookupContent (runWrites fs (given c.backup) (readOps c.input tries ++ saveOps c enc) (some k)) c.input =
+      lookupContent fs c.input := by
+  rw [filter_writeSide_script] at hk
+  rw [runWrites_readOps]
+  cases hb : given c.backup with
+  | none =>
+    rw [saveOps_none' hb] at hk ⊢
+    rcases k with _ | _ | _ | k
+    · rfl
+    · simp [block] at hk
+    · simp [block] at hk
+    · simp [block] at hk
+  | some b =>
+    have hbi : b ≠ c.input := (hnc b hb).1
+    rw [saveOps_some' hb] at hk ⊢
+    rcases k with _ | _ | _ | _ | _ | _ | k
+    · rfl
+    · simp [block] at hk
+    · simp [block] at hk
+    · rw [runWrites_append_ge _ _ _ _ _ (by rw [nWrites_block]; omega), nWrites_block]
+      show lookupContent (runWrites fs (some b) (block b enc) none) c.input = _
+      exact lookup_run_block_ne _ _ _ _ _ hbi
+    · simp [block] at hk
+    · simp [block] at hk
+    · simp [block] at hk
+
+/-- more precisely: the failing `openW` leaves its own file as it was, too -/
+theorem open_failure_keeps_target (c : MutateCfg) (tries : List (Str × Bool)) (enc : Str) (k : Nat) (p e : Str)
+    (hnc : NoClash c)
+    (hk : ((readOps c.input tries ++ saveOps c enc).filter writeSide)[k]? = some (.openW p e))
+    (fs : List (Str × Content)) :
+    lookupContent (runWrites fs (given c.backup) (readOps c.input tries ++ saveOps c enc) (some k)) p =
+      lookupContent fs p := by
+  rw [filter_writeSide_script] at hk
+  rw [runWrites_readOps]
+  cases hb : given c.backup with
+  | none =>
+    rw [saveOps_none' hb] at hk ⊢
+    rcases k with _ | _ | _ | k
+    · rfl
+    · simp [block] at hk
+    · simp [block] at hk
+    · simp [block] at hk
+  | some b =>
+    have hbo : b ≠ c.outPath := backup_ne_outPath hnc hb
+    rw [saveOps_some' hb] at hk ⊢
+    rcases k with _ | _ | _ | _ | _ | _ | k
+    · rfl
+    · simp [block] at hk
+    · simp [block] at hk
+    · rw [runWrites_append_ge _ _ _ _ _ (by rw [nWrites_block]; omega), nWrites_block]
+      show lookupContent (runWrites fs (some b) (block b enc) none) p = _
+      have hp : c.outPath = p := by
+        have : c.outPath = p ∧ enc = e := by simpa [block] using hk
+        exact this.1
+      rw [← hp]
+      exact lookup_run_block_ne _ _ _ _ _ hbo
+    · simp [block] at hk
+    · simp [block] at hk
+    · simp [block] at hk
+
+/-! ### 9. with a backup, the original bytes survive every single fault -/
+
+/-- `k = none` is the fault-free run, `k = some n` the run whose `n`-th write-side call fails (any `n`) -/
+theorem backup_protects_original (c : MutateCfg) (tries : List (Str × Bool)) (enc : Str) (b : Str)
+    (hnc : NoClash c) (hb : given c.backup = some b) (fs : List (Str × Content)) (k : Option Nat) :
+    let fs' := runWrites fs (given c.backup) (readOps c.input tries ++ saveOps c enc) k
+    (lookupContent fs' c.input = lookupContent fs c.input ∨ lookupContent fs' b = some (.written true)) ∧
+    ((∀ n, k = some n → 3 ≤ n) → lookupContent fs' b = some (.written true)) := by
+  have hbi : b ≠ c.input := (hnc b hb).1
+  have hbo : b ≠ c.outPath := backup_ne_outPath hnc hb
+  simp only
+  rw [runWrites_readOps, saveOps_some' hb, hb]
+  -- once the backup block has run fault-free, the backup is complete and the output block cannot touch it
+  have done : ∀ k', lookupContent
+      (runWrites (runWrites fs (some b) (block b enc) none) (some b) (block c.outPath enc) k') b =
+        some (.written true) := by
+    intro k'
+    rw [lookup_run_block_ne _ _ _ _ _ (Ne.symm hbo), lookup_run_block_none]
+    simp
+  cases k with
+  | none =>
+    rw [runWrites_append_none]
+    exact ⟨Or.inr (done none), fun _ => done none⟩
+  | some n =>
+    by_cases hn : n < 3
+    · rw [runWrites_append_lt _ _ _ _ _ (by rw [nWrites_block]; exact hn)]
+      refine ⟨Or.inl (lookup_run_block_ne _ _ _ _ _ hbi), fun h => ?_⟩
+      have := h n rfl
+      omega
+    · rw [runWrites_append_ge _ _ _ _ _ (by rw [nWrites_block]; omega)]
+      exact ⟨Or.inr (done _), fun _ => done _⟩
+
+/-- while the backup is being written, the output path is untouched as well -/
+theorem early_fault_keeps_output (c : MutateCfg) (tries : List (Str × Bool)) (enc : Str) (b : Str)
+    (hnc : NoClash c) (hb : given c.backup = some b) (fs : List (Str × Content)) (n : Nat) (hn : n < 3) :
+    lookupContent (runWrites fs (given c.backup) (readOps c.input tries ++ saveOps c enc) (some n)) c.outPath =
+      lookupContent fs c.outPath := by
+  rw [runWrites_readOps, saveOps_some' hb, hb,
+    runWrites_append_lt _ _ _ _ _ (by rw [nWrites_block]; exact hn)]
+  exact lookup_run_block_ne _ _ _ _ _ (backup_ne_outPath hnc hb)
+
+/-- a fault index beyond the script is no fault -/
+theorem late_fault_is_no_fault (c : MutateCfg) (tries : List (Str × Bool)) (enc : Str) (b : Str)
+    (hb : given c.backup = some b) (fs : List (Str × Content)) (n : Nat) (hn : 6 ≤ n) :
+    runWrites fs (given c.backup) (readOps c.input tries ++ saveOps c enc) (some n) =
+      runWrites fs (given c.backup) (readOps c.input tries ++ saveOps c enc) none := by
+  rw [runWrites_readOps, runWrites_readOps, saveOps_some' hb,
+    runWrites_append_ge _ _ _ _ _ (by rw [nWrites_block]; omega), runWrites_append_none, nWrites_block]
+  have := runWrites_append_ge (given c.backup) (block c.outPath enc) []
+    (runWrites fs (given c.backup) (block b enc) none) (n - 3) (by rw [nWrites_block]; omega)
+  rw [List.append_nil, runWrites_nil] at this
+  exact this
+
+/-- the complete fault table of a save with a backup: contents of the backup and of the output afterwards -/
+theorem fault_table (c : MutateCfg) (tries : List (Str × Bool)) (enc : Str) (b : Str)
+    (hnc : NoClash c) (hb : given c.backup = some b) (fs : List (Str × Content)) (k : Option Nat) :
+    let fs' := runWrites fs (given c.backup) (readOps c.input tries ++ saveOps c enc) k
+    (lookupContent fs' b, lookupContent fs' c.outPath) =
+      match k with
+      | some 0 => (lookupContent fs b, lookupContent fs c.outPath)      -- open(backup) failed
+      | some 1 => (some .truncated, lookupContent fs c.outPath)          -- write(backup) failed
+      | some 2 => (some (.written true), lookupContent fs c.outPath)     -- close(backup) failed
+      | some 3 => (some (.written true), lookupContent fs c.outPath)     -- open(output) failed
+      | some 4 => (some (.written true), some .truncated)                -- write(output) failed
+      | _ => (some (.written true), some (.written false)) := by         -- close(output) failed, or no fault
+  have hbo : b ≠ c.outPath := backup_ne_outPath hnc hb
+  have hob : c.outPath ≠ b := Ne.symm hbo
+  have e2 : decide (some b = some c.outPath) = false := by simp [hbo]
+  simp only
+  rw [runWrites_readOps, saveOps_some' hb, hb]
+  rcases k with _ | _ | _ | _ | _ | _ | _ | k <;>
+    simp only [block, List.cons_append, List.nil_append, runWrites_cons_none, runWrites_nil,
+      runWrites_openW_zero, runWrites_write_zero, runWrites_close_zero,
+      runWrites_succ _ _ _ _ _ (show writeSide (FsOp.openW _ _) = true from rfl),
+      runWrites_succ _ _ _ _ _ (show writeSide (FsOp.write _) = true from rfl),
+      runWrites_succ _ _ _ _ _ (show writeSide (FsOp.close _) = true from rfl),
+      applyOp_openW, applyOp_write, applyOp_close,
+      lookup_setFile_self, lookup_setFile_ne _ _ hbo, lookup_setFile_ne _ _ hob, e2, decide_true]
+/-- the fault table of a save without a backup: the content of the output (which is the input unless an output
+name was given) afterwards -/
+theorem fault_table_no_backup (c : MutateCfg) (tries : List (Str × Bool)) (enc : Str)
+    (hb : given c.backup = none) (fs : List (Str × Content)) (k : Option Nat) :
+    let fs' := runWrites fs (given c.backup) (readOps c.input tries ++ saveOps c enc) k
+    lookupContent fs' c.outPath =
+      match k with
+      | some 0 => lookupContent fs c.outPath      -- open(output) failed
+      | some 1 => some .truncated                 -- write(output) failed
+      | _ => some (.written false) := by          -- close(output) failed, or no fault
+  simp only
+  rw [runWrites_readOps, saveOps_none' hb, hb]
+  rcases k with _ | _ | _ | _ | k <;>
+    simp only [block, runWrites_cons_none, runWrites_nil,
+      runWrites_openW_zero, runWrites_write_zero, runWrites_close_zero,
+      runWrites_succ _ _ _ _ _ (show writeSide (FsOp.openW _ _) = true from rfl),
+      runWrites_succ _ _ _ _ _ (show writeSide (FsOp.write _) = true from rfl),
+      runWrites_succ _ _ _ _ _ (show writeSide (FsOp.close _) = true from rfl),
+      applyOp_openW, applyOp_write, applyOp_close, lookup_setFile_self, reduceCtorEq, decide_false]
+
+/-! ### 10. no stray files -/
+
+theorem no_stray_files (c : MutateCfg) (tries : List (Str × Bool)) (enc : Str) (fs : List (Str × Content))
+    (k : Option Nat) :
+    ∀ q ∈ (runWrites fs (given c.backup) (readOps c.input tries ++ saveOps c enc) k).map (·.1),
+      q ∈ fs.map (·.1) ∨ q = c.outPath ∨ given c.backup = some q := by
+  intro q hq
+  rw [runWrites_readOps] at hq
+  rcases runWrites_paths _ _ fs k q hq with h | ⟨op, hop, _, rfl⟩
+  · exact Or.inl h
+  · exact Or.inr (saveOps_path c enc op hop)
+
+/-- the same for an arbitrary script and an arbitrary fault: only paths of write-side calls can appear -/
+theorem no_stray_files_general (fs : List (Str × Content)) (b : Option Str) (ops : List FsOp) (k : Option Nat) :
+    ∀ q ∈ (runWrites fs b ops k).map (·.1),
+      q ∈ fs.map (·.1) ∨ ∃ op ∈ ops, writeSide op = true ∧ opPath op = q :=
+  runWrites_paths b ops fs k
+
+/-! ### non-vacuity -/
+
+def cfg0 : MutateCfg := ⟨"a.sm".toList, none, some "a.bak".toList⟩
+def tries0 : List (Str × Bool) := [("utf-8".toList, false), ("cp1252".toList, true)]
+def fs0 : List (Str × Content) := [("a.sm".toList, .original), ("other".toList, .original)]
+
+example : NoClash cfg0 := by decide +kernel
+example : detectEncoding tries0 = some "cp1252".toList := by decide +kernel
+example : given cfg0.backup = some "a.bak".toList := by decide +kernel
+example : SaveProblem.unencodable ≠ .none := by decide
+example : given (⟨"a.sm".toList, some [], none⟩ : MutateCfg).backup = none := by decide +kernel
+example : Body.raises = .raises ∨ Body.raises = .cancels := by decide
+-- the open-for-write calls are the write-side calls number 0 and 3
+example : ((readOps cfg0.input tries0 ++ saveOps cfg0 "cp1252".toList).filter writeSide)[0]? =
+    some (.openW "a.bak".toList "cp1252".toList) := by decide +kernel
+example : ((readOps cfg0.input tries0 ++ saveOps cfg0 "cp1252".toList).filter writeSide)[3]? =
+    some (.openW "a.sm".toList "cp1252".toList) := by decide +kernel
+-- a failing write of the output truncates the input, but the backup is complete
+example : lookupContent (runWrites fs0 (given cfg0.backup)
+    (readOps cfg0.input tries0 ++ saveOps cfg0 "cp1252".toList) (some 4)) "a.sm".toList = some .truncated := by
+  decide +kernel
+example : lookupContent (runWrites fs0 (given cfg0.backup)
+    (readOps cfg0.input tries0 ++ saveOps cfg0 "cp1252".toList) (some 4)) "a.bak".toList =
+    some (.written true) := by
+  decide +kernel
+
+end Simfile.C06
